@@ -1,5 +1,5 @@
 """C02 — comparison and hashing of time points follow the timeline."""
-from . import ALL_MODES
+from . import ALL_MODES, T1_CAL, TICK, ADD_EXACT, REZONE, CAL_LEMMAS
 
 ID = "C02"
 LEVEL = "proof"
@@ -7,7 +7,8 @@ MODES = ALL_MODES
 FUNCS = ["data:TimePoint._cmp", "data:TimePoint.__hash__",
          "ghost:order_laws", "ghost:order_transitive",
          "ghost:equal_implies_equal_hash", "ghost:difference_sign_agrees"]
-LEMMAS = ["opaque.dby.step", "opaque.dby.range", "cal.key.order", "ord.key.order",
+FUNCS = FUNCS + T1_CAL + TICK + ADD_EXACT + REZONE
+LEMMAS = CAL_LEMMAS + ["opaque.dby.step", "opaque.dby.range", "cal.key.order", "ord.key.order",
           "day.split.unique", "hms.split.unique"]
 CANARIES = ["canary.week52"]
 _DI = {"cal": 0, "ord": 1, "week": 2}
